@@ -265,6 +265,10 @@ def parse_location_step(tokens: TokenTree) -> LocationStep:  # noqa: C901
         tokens, (TokenType.NAME, TokenType.OPEN_PARENS, TokenType.CLOSE_PARENS)
     ):
         assert isinstance(tokens[0], Token)
+        if tokens[0].string not in NODE_TYPE_TEST_MAPPING:
+            raise XPathParsingError(
+                message="Unrecognized node test.", position=tokens[0].position
+            )
         node_test = NodeTypeTest(NODE_TYPE_TEST_MAPPING[tokens[0].string])
         tokens = tokens[3:]
 
